@@ -23,7 +23,14 @@ class Ctx(object):
         self.level = level
         self.seed = int(os.environ.get("VERIF_SEED", "1") or "1")
         self.t0 = time.time()
-        base = os.environ.get("VERIF_SCRATCH", "/var/tmp")
+        base = os.environ.get("VERIF_SCRATCH") or ("/dev/shm" if os.access("/dev/shm", os.W_OK) else "/var/tmp")
+        for e in os.listdir(base):          # scratch left behind by killed runs
+            d = os.path.join(base, e)
+            try:
+                if e.startswith("verif-") and os.path.isdir(d) and time.time() - os.path.getmtime(d) > 4 * 3600:
+                    shutil.rmtree(d, ignore_errors=True)
+            except OSError:
+                pass
         self.scratch = tempfile.mkdtemp(prefix="verif-%s-" % prop, dir=base)
         self.violations = []      # (what, replay_path)
         self.known_hits = []      # finding ids used
